@@ -95,6 +95,22 @@ pub fn judge(input: &Vec<u8>, st: &mut Stats) -> Verdict {
         st.class("utf8-input");
         let got_s = imp::v1_str(s);
         compare("try_from(&str)", input, &want, &got_s)?;
+        // the FromStr impls are v1 text entry points as well
+        let got_h = imp::v1_fromstr_header(s);
+        compare("str::parse::<Header>", input, &want, &got_h)?;
+        match (&want, imp::v1_fromstr_addr(s)) {
+            (V1Ref::Accept { addr, .. }, Ok(Ok(a))) if imp::addr1(&a) == *addr => {}
+            (V1Ref::Reject(_), Ok(Err(_))) | (V1Ref::Reject(_), Err(_)) => {}
+            (w, got) => {
+                return Err(Fail::new(
+                    "fromstr-addresses",
+                    shape(input),
+                    "str::parse::<Addresses>",
+                    format!("{:?}", w),
+                    imp::short(&format!("{:?}", got)),
+                ))
+            }
+        }
     }
     Ok(())
 }
